@@ -346,7 +346,7 @@ pub fn run(r: &mut Runner) -> &'static str {
     r.rule = "inputs: command x transport x address block of each family (random + special values) x TLV list (raw kind bytes and every named Type; value lengths 0..4, ..60, 255-257, 1000, 4096, 30000, \
               up to the room left; 1 in 40 lists fills the payload to exactly 65535) x 7 public build routes (with_addresses+write_tlv, new+BitOr control bytes+TLV structs, tuples, batch of structs, \
               batch of tuples with explicit length, with_addresses + one batch only, new + two batches). oracle: reference encoder R-ENC byte for byte (registered type codes as literals), then parse-back: same command, transport, addresses, bytes and, \
-              for a specified family, the same TLV sequence. non-trivial = at least one TLV or a specified family; distinct by SipHash"
+              for a specified family, the same TLV sequence. non-trivial = at least one TLV or a specified family; distinct by SipHash Added later: grid of 22 type bytes x every value length x 5 content classes, the parsed TLV sequence also read with next()+nth(1) and skip(k)."
         .into();
     let n = r.n(100_000, 3_000_000);
     r.random("c07.build-parse", n, 160, &gen_case, &judge);
